@@ -140,9 +140,11 @@ Inductive case :=
 | CDec (e : dentry) (data : bdsl) (cls : nat) (dec : dval)
 (* DecodeEventData(topics, data): class, children;
    expectation computed by the harness from how it built the log: None = none, Some None = must be
-   refused, Some (Some l) = must decode to exactly these argument values *)
+   refused, Some (Some l) = must decode to exactly these argument values;
+   [strict = false]: the log cannot come from the EVM for this event (a topic that is not 32 bytes wide,
+   surplus topics, trailing data bytes): an implementation may refuse it, only a decoded result is compared *)
 | CEvent (e : dentry) (topics : list bdsl) (data : bdsl) (cls : nat) (out : list dchild)
-         (expect : option (option (list dval)))
+         (expect : option (option (list dval))) (strict : bool)
 (* ParseError(data): class (2 = panic), found entry as (name, signature) and value;
    ErrorString(data): text, ok; [fmt]: what the serializer pipeline gives for the returned value;
    expectation: index into (Error(string) :: abi) of the entry that must be found, with its arguments *)
@@ -268,11 +270,12 @@ Definition check_case (c : case) : N :=
          end then 15
       else if negb (res_val_match cls dec (mDecodeCallData H e d)) then 5
       else 0
-  | CEvent de topics data cls out expect =>
+  | CEvent de topics data cls out expect strict =>
       let e := entry_of de in
       let tps := map bexpand topics in
       let outv := map (fun d => match d with DCh _ _ v => v end) out in
       if (cls =? 2)%nat then 19
+      else if negb strict && (cls =? 1)%nat then 0
       else match expect with
       | Some None => if (cls =? 1)%nat then
                        match mDecodeEventData H e tps (bexpand data) with Err _ => 0 | _ => 6 end
